@@ -2,6 +2,7 @@
 """Regenerates the `fixed` list of known_findings.json from /repo's "fix:" commits."""
 import json, subprocess
 PROP = {
+"serialization schema promised dependentRequired":"C07",
 "coerce=True converted booleans to float":"C14",
 "validators passed per call or in metadata":"C10",
 "a validator yielding index 0 as error path":"C10",
